@@ -1,6 +1,6 @@
 (* C14/Props.v -- property C14: source-form detection. Statements only; proofs in C14/Proofs.v. *)
 From Coq Require Import String.
-From FV Require Import Base.Str Base.Regex Gen.GenRegex Shared.ScopeMachine C14.Model C14.Proofs.
+From FV Require Import Base.Str Base.Regex Gen.GenRegex Shared.ScopeMachine C13.Cont C14.Model C14.Proofs C14.Gather.
 
 (* fixed form is decided iff no examined (non-preprocessor) line votes for free form *)
 Theorem detect_fixed_characterisation ls :
@@ -33,6 +33,27 @@ Theorem shared_label_closes_nest lbl n rest :
   match rest with x :: _ => str_eqb lbl x = false | [] => True end -> pop_label lbl (repeat lbl n ++ rest) = (n, rest).
 Proof. exact (labelled_do_closes lbl n rest). Qed.
 Print Assumptions shared_label_closes_nest.
+
+(* fixed-form continuation: whatever the continuation marks, with comment and blank lines in between, the statement readers get the
+   statement (up to blanks) ... *)
+Theorem fixed_continuation_preserves_statement lead0 b0 ps stop :
+  Forall (fun p => wf_fpiece p = true) ps ->
+  (match stop with l :: _ => fixed_cont l = false /\ blank_line l = false /\ fixed_comment l = false | [] => True end) ->
+  squeeze (joined_fixed (repeat 32%N lead0 ++ b0) (render_conts ps ++ stop)) = squeeze (b0 ++ concat (map fbody ps)).
+Proof. exact (fixed_continuation_layout_irrelevant lead0 b0 ps stop). Qed.
+Print Assumptions fixed_continuation_preserves_statement.
+
+(* ... and it is the text its free-form twin yields: the same statement cut at the same places, any number of pieces *)
+Theorem fixed_free_same_statements p rest lead0 fps stop :
+  Forall (fun q => wf_piece q = true) (p :: rest) -> amp_lead p = false ->
+  Forall (fun q => wf_fpiece q = true) fps -> map fbody fps = map body rest ->
+  (match stop with l :: _ => fixed_cont l = false /\ blank_line l = false /\ fixed_comment l = false | [] => True end) ->
+  match render (p :: rest) with
+  | cur :: more => squeeze (joined cur more) = squeeze (joined_fixed (repeat 32%N lead0 ++ body p) (render_conts fps ++ stop))
+  | [] => False
+  end.
+Proof. exact (fixed_free_same_statement p rest lead0 fps stop). Qed.
+Print Assumptions fixed_free_same_statements.
 
 (* the direct tests agree with the patterns compiled by the code (regenerated): exhaustive over all strings of
    length <= 6 on {blank a Z 1 !}, all strings of length <= 2 on the comment alphabet, and the keyword probes
